@@ -36,9 +36,23 @@ def JV.get? (j : JV) (k : String) : Option JV := (j.fields.find? (·.1 == k)).ma
 def JV.getNN? (j : JV) (k : String) : Option JV := match j.get? k with | some .null => none | r => r
 def JV.isObj : JV → Bool | .obj _ => true | _ => false
 def JV.strVal? : JV → Option String | .str s => some s | _ => none
-/-- the `$ref` text of an object (UnmarshalJSON of the wrappers: a non-empty string) -/
+/-- the `$ref` text of an object (UnmarshalJSON of the wrappers: a non-empty string; with anything else the
+    object is decoded as the value) -/
 def JV.refText? (j : JV) : Option String :=
   match j.get? "$ref" with | some (.str s) => if s.isEmpty then none else some s | _ => none
+
+/-- the `$ref` of a path item (a plain struct field `Ref string`): a number or boolean there makes
+    `json.Unmarshal` fail, and the YAML fallback of `unmarshal` reads it as a string — some text without '#'
+    (a whole-file reference that resolves to nothing) -/
+def JV.refTextPI? (j : JV) : Option String :=
+  match j.get? "$ref" with
+  | some (.str s) => if s.isEmpty then none else some s
+  | some (.num _) => some "<number>"
+  | some (.bool _) => some "<boolean>"
+  | _ => none
+
+def JV.refTextK? (k : KinModel.LoadSafety.Kind) (j : JV) : Option String :=
+  if k == .pathItem then j.refTextPI? else j.refText?
 
 /-! ### struct table access -/
 
@@ -182,7 +196,11 @@ def Docs.fileIndex? (ds : Docs) (from_ : Nat) (file : String) : Option Nat :=
 /-- split a reference text: (document number, fragment tokens); `none` = error before any drill-down -/
 def Docs.locate (ds : Docs) (doc : Nat) (text : String) : Option (Nat × List String) :=
   if hasChar text '%' || hasChar text ' ' then none
-  else match splitOnChar text '#' with
+  -- `url.Parse`: the fragment is everything after the FIRST '#'
+  else match (match splitOnChar text '#' with
+              | [] => ([] : List String)
+              | [a] => [a]
+              | a :: rest => [a, String.intercalate "#" rest]) with
   | [file, frag] =>
     if file.isEmpty then (fragmentTokens frag).map (fun ts => (doc, ts))
     else if !ds.ext then none
@@ -229,7 +247,7 @@ def drillField (cfg : Cfg) (ds : Docs) : Nat → Nat → Cur → String → FOut
       | .struct name =>
         -- a path item given by `$ref` was overwritten by its target when it was resolved (`*pathItem = resolved`)
         let j : JV := if name == "PathItem" && p != "$ref" then
-            (match j.refText? with
+            (match j.refTextPI? with
              | some t => (match drillText cfg ds fuel doc t with
                           | .found (.val (.ptr (.struct "PathItem")) j2) => j2
                           | _ => j)
@@ -353,7 +371,7 @@ def toNode : Nat → Nat → Kind → Nat → JV → Node
   | fuel + 1, doc, kind, h, j =>
     let id := nodeId doc h
     if j.isNull then .mk id doc kind none true []
-    else match j.refText? with
+    else match j.refTextK? kind with
     | some t =>
       if kind == .pathItem && !pathItemIsEmpty j then .mk id doc kind none false []   -- `if !pathItem.isEmpty() { return }`
       else .mk id doc kind (some (strHash t)) false []
@@ -484,7 +502,7 @@ def targetOf (cfg : Cfg) (ds : Docs) (doc : Nat) (text : String) (k : Kind) : Tg
 /-- every string that occurs as a `$ref` in a JSON tree (over-approximates the walked references) -/
 def allRefTexts : Nat → JV → List String
   | 0, _ => []
-  | fuel + 1, .obj kvs => (match (JV.obj kvs).refText? with | some t => [t] | none => []) ++ kvs.flatMap (fun kv => allRefTexts fuel kv.2)
+  | fuel + 1, .obj kvs => (match (JV.obj kvs).refTextPI? with | some t => [t] | none => []) ++ kvs.flatMap (fun kv => allRefTexts fuel kv.2)
   | fuel + 1, .arr xs => xs.flatMap (allRefTexts fuel)
   | _, _ => []
 
@@ -930,7 +948,7 @@ def valueOf (b : Built) (st : St) (k : Kind) (doc h : Nat) (j : JV) : Option (Na
 def pathItemContent (b : Built) (st : St) : Nat → Nat → Nat → JV → List Nat → (Nat × Nat × JV)
   | 0, doc, h, _, _ => (doc, h, .obj [])
   | fuel + 1, doc, h, j, seen =>
-    match j.refText? with
+    match j.refTextPI? with
     | none => (doc, h, j)
     | some t =>
       if !pathItemIsEmpty j then (doc, h, j)
@@ -1085,7 +1103,7 @@ def iwPaths (b : Built) (st : St) : Nat → Nat → Nat → List (String × JV) 
       if v.contains (nodeId doc h) then .ok v                  -- isVisitedPathItem
       else
         let v0 := nodeId doc h :: v
-        let pie := isExternalRef ((kv.2.refText?).getD "") pe
+        let pie := isExternalRef ((kv.2.refTextPI?).getD "") pe
         let c := if st.value.contains (nodeId doc h) then pathItemContent b st 16 doc h kv.2 [] else (doc, h, kv.2)
         let d := c.1
         let hc := c.2.1
